@@ -9,7 +9,7 @@ EXPLANATION = (
     "Summary composition through paseto-core's generic code with each backend's trait impls substituted: "
     "R05.1 wrap_pie∘unwrap and password_wrap_with_params∘unwrap (6 backends each) must cancel symbolically — the tag "
     "verification compares identical constructions and the bytes handed to HasKey::decode are exactly HasKey::encode's "
-    "output; R05.4 every Err exit of a wrap/seal path is environmental (RNG, library-reported, parameter validation); "
+    "output; R05.4 every Err exit of a wrap/seal path is environmental (RNG, library-reported), a reviewed parameter rejection in canonical form, or statically impossible under a stated library length contract; "
     "R05.6 the produced blob is a concatenation of fixed-width fields plus exactly one field as long as the encoded key, "
     "with the overhead the PASERK format prescribes; R05.3 no variable-length big-integer encoding reaches a fixed-width "
     "output field unpadded (T-FIXW). PKE (seal∘unseal) composition is decided up to the Diffie-Hellman / RSA-KEM algebra "
@@ -118,7 +118,7 @@ def run(ctx):
                     res = c.get("result")
                     enc = subterms(c.get("blob"), lambda x: x and x[0] == "call" and x[1].endswith("HasKey<K>>::encode"))
                     okres = (isinstance(res, tuple) and res[0] == "agg" and len(res[2]) == 1 and isinstance(res[2][0], tuple)
-                             and res[2][0][0] == "ok" and res[2][0][1][0] == "call" and res[2][0][1][1].endswith("HasKey::decode")
+                             and res[2][0][0] == "ok" and res[2][0][1][0] == "call" and re.search(r"HasKey(<\w+>>)?::decode$", res[2][0][1][1])
                              and enc and res[2][0][1][2] == (enc[0],))
                     if not okres and not probs:
                         probs.append("unwrapped key is not decode(encode(key)): " + fmt_n(res)[:500])
